@@ -55,5 +55,27 @@ for d in sorted(glob.glob(os.path.join(ROOT, 'seeded', '*'))):
     det = (m.get('detection') or '').replace('\n', ' ').replace('|', '\\|')
     rows.append('| `%s` | %s | %s | %s | %s |' % (os.path.basename(d), m.get('breaks_property', '?'), summ[:400], needs[:300], det))
 out += part('s7_head.md') + '\n'.join(rows) + '\n' + part('s7_tail.md')
+# mutation campaign summary
+mlog = os.path.join(ROOT, 'notes', 'mutation_log.jsonl')
+if os.path.exists(mlog):
+    recs = [json.loads(l) for l in open(mlog) if l.strip()]
+    by = {}
+    for r in recs:
+        by[r['outcome']] = by.get(r['outcome'], 0) + 1
+    catchers = {}
+    for r in recs:
+        for c in r.get('caught_by', []):
+            catchers[c] = catchers.get(c, 0) + 1
+    alive = by.get('caught', 0) + by.get('SURVIVED', 0)
+    out += '| mutants run | did not compile | killed by the repository suite | passed the suite | of those caught by a check | survived |\n|---|---|---|---|---|---|\n'
+    out += '| %d | %d | %d | %d | %d | %d |\n\n' % (len(recs), by.get('no-compile', 0), by.get('killed-by-suite', 0), alive, by.get('caught', 0), by.get('SURVIVED', 0))
+    out += 'Checks that caught suite-surviving mutants (a mutant may be caught by several): ' + ', '.join('%s ×%d' % (k, v) for k, v in sorted(catchers.items())) + '.\n\n'
+    out += 'Survivors:\n\n'
+    for r in recs:
+        if r['outcome'] == 'SURVIVED':
+            out += '* `%s` — `%s` → `%s`\n' % (r['id'], r['before'].strip()[:90].replace('|', '\\|'), r['after'].strip()[:90].replace('|', '\\|'))
+    surv = os.path.join(ROOT, 'notes', 'mutation_survivors.md')
+    if os.path.exists(surv):
+        out += '\n' + open(surv).read()
 open(os.path.join(ROOT, 'DESIGN.md'), 'w').write(out)
 print('DESIGN.md written:', len(out), 'bytes,', len(rows), 'seeded changes')
